@@ -171,6 +171,64 @@ theorem const_unsigned_adjust (v : Int) (size bits : Nat) (cs : Option Bool) (cb
 
 example : (2 ≤ 8 ∧ 8 < 62) ∧ (1 < 8) ∧ (-(2 ^ 8 : Int) ≤ -1 ∧ (-1 : Int) < 0) ∧ constValue (-1) false none 8 true 1 (some 8) = some 255 := by decide
 
+/-! ## folding of the unary operators on a known operand (`setTokenValue`) -/
+
+/-- `!x` is folded to the C value (int 0 / 1) for every operand -/
+theorem fold_lnot (v : Int) (u : Bool) (ty : ITy) (s : IntShape) :
+    foldUnary .lnot v u ty s.intBit s.longBit = some (cUnary .lnot v (s.bits ty) u s.intBit) := by
+  simp [foldUnary, cUnary]
+
+/-- `~x`: on every platform shape and for every operand type and value the folded value is the C value — integer promotion
+    first, then `~` in the promoted type — represented as a 64-bit bigint.  Excluded (false of the code, see the
+    counterexample): `unsigned short` as wide as `int`, `unsigned long long` narrower than 64 bits. -/
+theorem fold_bnot_partial (s : IntShape) (hs : s.sane = true) (ty : ITy) (u : Bool) (v : Int)
+    (hv : inOperand v s ty u = true) (hbig : -(2 ^ 63) ≤ v ∧ v < 2 ^ 63)
+    (h1 : ¬ (u = true ∧ ty = .short ∧ s.shortBit = s.intBit)) (h2 : ¬ (u = true ∧ ty = .longlong ∧ s.llongBit < 64)) :
+    foldUnary .bnot v u ty s.intBit s.longBit = some (Int.bmod (cUnary .bnot v (s.bits ty) u s.intBit) (2 ^ 64)) :=
+  foldUnary_bnot_eq s hs ty u v hv hbig h1 h2
+
+-- unix64, `~(unsigned char)0 = -1`, `~(unsigned short)1 = -2`, `~5u = 4294967290`
+example : (⟨8, 16, 32, 64, 64⟩ : IntShape).sane = true ∧ inOperand 0 ⟨8, 16, 32, 64, 64⟩ .char true = true ∧
+    foldUnary .bnot 0 true .char 32 64 = some (-1) ∧ cUnary .bnot 0 8 true 32 = -1 ∧
+    foldUnary .bnot 1 true .short 32 64 = some (-2) ∧ foldUnary .bnot 5 true .int 32 64 = some 4294967290 := by decide
+
+/-- without the two exclusions the statement is false of the code: `~(unsigned short)1` where short is as wide as int
+    (avr8, pic8, msp430: C value 65534, folded −2) and `~0ull` where long long has 32 bits (pic8: 4294967295, folded −1) -/
+theorem fold_bnot_counterexample :
+    ¬ ∀ (s : IntShape) (ty : ITy) (u : Bool) (v : Int), s.sane = true → inOperand v s ty u = true → -(2 ^ 63) ≤ v ∧ v < 2 ^ 63 →
+      foldUnary .bnot v u ty s.intBit s.longBit = some (Int.bmod (cUnary .bnot v (s.bits ty) u s.intBit) (2 ^ 64)) := by
+  intro h
+  have := h ⟨8, 16, 16, 32, 64⟩ .short true 1 (by decide) (by decide) (by decide)
+  revert this
+  decide
+
+theorem fold_bnot_ulonglong_counterexample :
+    foldUnary .bnot 0 true .longlong 16 32 ≠
+      some (Int.bmod (cUnary .bnot 0 ((⟨8, 16, 16, 32, 32⟩ : IntShape).bits .longlong) true 16) (2 ^ 64)) := by decide
+
+/-- unary minus on an operand whose promoted type is signed: the C value (−v); `LLONG_MIN` gets no value -/
+theorem fold_neg_partial (s : IntShape) (ty : ITy) (u : Bool) (v : Int)
+    (hp : (promote (s.bits ty) u s.intBit).2 = false) (hv : v ≠ -(2 ^ 63)) :
+    foldUnary .neg v u ty s.intBit s.longBit = some (cUnary .neg v (s.bits ty) u s.intBit) := by
+  simp only [foldUnary, hv, if_false, cUnary]
+  cases hpp : promote (s.bits ty) u s.intBit with
+  | mk b u' =>
+    rw [hpp] at hp
+    simp only at hp
+    simp [hp]
+
+example : (promote ((⟨8, 16, 32, 64, 64⟩ : IntShape).bits .short) true 32).2 = false ∧ (65535 : Int) ≠ -(2 ^ 63) ∧
+    foldUnary .neg 65535 true .short 32 64 = some (-65535) := by decide
+
+/-- for an operand whose promoted type is unsigned the statement is false of the code (finding F10b): `-1u` is folded to −1 -/
+theorem fold_neg_unsigned_counterexample :
+    ¬ ∀ (s : IntShape) (ty : ITy) (u : Bool) (v : Int), s.sane = true → inOperand v s ty u = true → v ≠ -(2 ^ 63) →
+      foldUnary .neg v u ty s.intBit s.longBit = some (Int.bmod (cUnary .neg v (s.bits ty) u s.intBit) (2 ^ 64)) := by
+  intro h
+  have := h ⟨8, 16, 32, 64, 64⟩ .int true 1 (by decide) (by decide) (by decide)
+  revert this
+  decide
+
 /-- 731a3b3: an ordinary one-character literal with code `b` is valued `(char)b` by the host-char converter; the adjustment
     turns it into the value of the analysed platform's `char` (0…255 if unsigned, −128…127 if signed) -/
 theorem char_platform_sign (b : Nat) (hb : b < 256) (u : Bool) :
